@@ -93,6 +93,24 @@ def _negate(t: ast.expr) -> ast.expr:
     return ast.copy_location(ast.UnaryOp(op=ast.Not(), operand=t), t)
 
 
+def _continue_to_else(body: List[ast.stmt]) -> List[ast.stmt]:
+    """N24: inside a loop body   if c: S; continue   REST      ->      if c: S  else: REST      (the guard-clause form of a
+    two-armed round); a trailing `continue` of the body itself is dropped"""
+    out: List[ast.stmt] = []
+    for i, st in enumerate(body):
+        rest = body[i + 1:]
+        if isinstance(st, ast.If) and not st.orelse and st.body and isinstance(st.body[-1], ast.Continue) and rest \
+                and not any(isinstance(n, (ast.Continue, ast.Break)) for x in st.body[:-1] for n in ast.walk(x)):
+            st.body = st.body[:-1] or [ast.copy_location(ast.Pass(), st)]
+            st.orelse = _continue_to_else(rest)
+            out.append(st)
+            return out
+        out.append(st)
+    if out and isinstance(out[-1], ast.Continue) and len(out) > 1:
+        out = out[:-1]
+    return out
+
+
 class _N(ast.NodeTransformer):
     def visit_Assign(self, node: ast.Assign):
         self.generic_visit(node)
@@ -129,13 +147,22 @@ class _N(ast.NodeTransformer):
         return node
 
     def visit_For(self, node: ast.For):
+        node.body = _continue_to_else(node.body)
         self.generic_visit(node)
         return self._loop_else(node)
+
+    def visit_IfExp(self, node: ast.IfExp):
+        self.generic_visit(node)
+        # N25: a if not c else b   ->   b if c else a
+        if isinstance(node.test, ast.UnaryOp) and isinstance(node.test.op, ast.Not):
+            return ast.copy_location(ast.IfExp(test=node.test.operand, body=node.orelse, orelse=node.body), node)
+        return node
 
     def _loop_else(self, node):
         return node
 
     def visit_While(self, node: ast.While):
+        node.body = _continue_to_else(node.body)
         self.generic_visit(node)
         # N6: while True: if X: break; rest   ->   while not X: rest
         if isinstance(node.test, ast.Constant) and node.test.value is True and not node.orelse and node.body:
@@ -233,6 +260,9 @@ class _N(ast.NodeTransformer):
                 continue
             # N21: an assertion whose test only reads (no call that could change state) is assumed to hold
             if isinstance(st, ast.Assert) and _read_only(st.test):
+                for n in ast.walk(st):
+                    if isinstance(n, ast.Name) and isinstance(n.ctx, ast.Load) and n.id in self._uses:
+                        self._uses[n.id] -= 1              # the reads made by the assertion are gone with it
                 continue
             # N22: a store to a local that nothing reads (e.g. a counter that only fed a log line) is dropped when the stored
             # expression only reads
